@@ -42,6 +42,10 @@ CLAIMED = {
             "Theorems (Properties_C08.v): with the start-up order the code has today the analyzer's registry snapshot equals the CLI's registry for every pair of hand-written/embedded registries (pre-fix order refuted: it offers only the hand-written checkers); a diagnostic renders to the same 'location: checker: message' line through asDiag and through the CLI; quick fixes are forwarded field by field; for every well-formed package unit the CLI analyses each file exactly once and the analysis driver (all variants + de-duplication) covers exactly the same files once each. Tie/oracle: a workspace with in-package tests, an external test package, nested and multiple packages analysed by go-critic, gocritic, go-critic-analysis and gocritic-analysis under equivalent configurations in both flag dialects (defaults, enable-all, hand-written names, embedded names, tags, a parameter) and different package argument sets: normalised (file,line,col,checker,message) lists equal and duplicate-free, rendered lines compared with the model in Coq; analyzer -flags covers every parameter; analyzer -json suggested edits equal in-process Warning.Suggestion.",
             "Trusted: Coq kernel + vm_compute; the event-order model is a hand abstraction of Go's package initialisation (tied behaviourally by the differential run); x/tools driver de-duplication assumed as documented; partial: equality of diagnostics across package variants is measured, not proved.",
             "§5 C08"),
+    "C04": ("Coq theorems over a small-step model of checkFile's goroutine pool (invariant by induction over schedules) and the analyzer's mutex-protected cache + -concurrency sweep and race-detector oracle",
+            "Theorems (Properties_C04.v): for every number of checkers, every semaphore capacity and EVERY complete schedule of spawn/work/finish steps, the lines printed after the barrier equal the sequential run in checker order (C04_sched_confluent, via an invariant tying each slot to its checker's sequential result); every capacity >= 1 is deadlock-free, capacity 0 blocks; at most 'capacity' workers hold a token; distinct steps never write a cell another reads or writes (race freedom of the model's footprints); a cached analyzer configuration is never replaced and all passes, in any order, use it. PARTIAL by nature: the theorems cover scheduling logic and footprints, not the compiled program's memory accesses. Tie/oracle: both CLI mains with -concurrency in {1,2,3,GOMAXPROCS,64} must print byte-identical output; per file the printed lines are compared in Coq with the checker-order concatenation of sequential in-process results; race-detector builds of the CLI (varying GOMAXPROCS) and of the go/analysis driver (parallel vs -debug=p) must report no DATA RACE and identical diagnostics.",
+            "Trusted: Coq kernel + vm_compute; the footprint abstraction (workers read shared state, write only their own context and slot) is an assumption discharged for real checkers only by C05's checks and the race detector; Go runtime scheduler and memory model not modelled.",
+            "§5 C04"),
 }
 
 NOT_APPLICABLE = {}
